@@ -69,3 +69,26 @@ func TestGameRules(t *testing.T) {
 		}
 	}
 }
+
+func TestAttackedAgreesWithDefinition(t *testing.T) {
+	for _, p := range perfts {
+		st := MustFEN(p.fen)
+		var walk func(pos Pos, d int)
+		walk = func(pos Pos, d int) {
+			for s := 0; s < 64; s++ {
+				for _, w := range []bool{true, false} {
+					if pos.Attacked(s, w) != pos.AttackedSlow(s, w) {
+						t.Fatalf("Attacked(%s,%v) disagrees with the definition in %s", SqName(s), w, pos.KeyFEN())
+					}
+				}
+			}
+			if d == 0 {
+				return
+			}
+			for _, m := range pos.Legal() {
+				walk(pos.Make(m), d-1)
+			}
+		}
+		walk(st.Pos, 2)
+	}
+}
